@@ -216,6 +216,9 @@ func planC09(tier string, root *simcore.RNG) *plan {
 			sc.Sites["leaf.post"] = lm
 		}
 		sc.Sites["write"] = pick(r, []uint32{1, 4, 32})
+		if r.Intn(2) == 0 {
+			sc.Sites["auto"] = pick(r, []uint32{1, 2, 4})
+		}
 		sc.Sites["close"] = 1
 		for _, h := range []string{"go.start", "worker.start", "mc.sent", "cons.tri", "cons.stl", "cons.stl.flush", "cons.3mf", "cons.3mf.encode", "cons.dxf", "cons.dxf.save", "cons.svg", "cons.svg.save"} {
 			if r.Intn(4) != 0 {
@@ -254,7 +257,8 @@ func planC09(tier string, root *simcore.RNG) *plan {
 		// two of its children: several resolutions (19 is known to be a sensitive one)
 		list := []mc{{"extrude-union2d", 19}, {"extrude-union2d", pick(r0, []int{17, 18, 20, 21, 22})},
 			{"multi-intersect", pick(r0, []int{14, 16, 18})}, {"csg", pick(r0, []int{14, 16, 18})},
-			{"sphere-box", pick(r0, []int{14, 16, 18})}, {"array", pick(r0, []int{14, 16, 18})}}
+			{"sphere-box", pick(r0, []int{14, 16, 18})}, {"array", pick(r0, []int{14, 16, 18})},
+			{"cache-extrude-rot", pick(r0, []int{12, 14, 16})}, {"cache-extrude", pick(r0, []int{12, 14, 16})}}
 		for _, e := range list {
 			model := e.model
 			s := c09sig{"mcu", model, "tri", e.cells}
@@ -281,6 +285,33 @@ func planC09(tier string, root *simcore.RNG) *plan {
 					sc.Env.Race = true
 				}
 				pl.scenarios = append(pl.scenarios, sc)
+			}
+		}
+	}
+	// a cached model kept in a variable and rendered at two resolutions one after the
+	// other (the second render meets a cache filled at nearly-coinciding points)
+	{
+		r0 := root.Fork()
+		have := map[string]bool{}
+		for _, s := range cat {
+			have[s.key()] = true
+		}
+		for _, model := range []string{"cache-extrude", "cache-extrude-rot"} {
+			for _, pr := range [][2]int{{20, 60}, {40, 60}, {16, 48}} {
+				kind := "mco"
+				b := c09sig{kind, model, pick(r0, []string{"tri", "stl"}), pr[1]}
+				if !have[b.key()] {
+					have[b.key()] = true
+					cat = append(cat, b)
+					pl.scenarios = append(pl.scenarios, &Scenario{Prop: "C09", Family: "render", Seed: r0.Uint64(), Groups: [][]Job{{b.job(1)}},
+						Sched: Sched{Policy: "fifo"}, Sites: map[string]uint32{}, Env: Env{GOMAXPROCS: 16, CPUs: 16}, Note: "canonical"})
+				}
+				j1 := Job{ID: 1, Kind: kind, Model: model, Cells: pr[0], Sink: "tri", Share: true}
+				j2 := b.job(2)
+				j2.Share = true
+				pl.scenarios = append(pl.scenarios, &Scenario{Prop: "C09", Family: "render", Seed: r0.Uint64(), Groups: [][]Job{{j1}, {j2}},
+					Sites: map[string]uint32{"close": 1, "write": 64, "go.start": 1, "cons.tri": 1, "cons.stl": 1}, Sched: Sched{Policy: "uniform", Seed: r0.Uint64()},
+					Env: Env{GOMAXPROCS: pick(r0, []int{1, 4, 16}), CPUs: 16}, Note: "resolution-history"})
 			}
 		}
 	}
